@@ -74,6 +74,10 @@ fn eval(kernel: &str, a: &[f64]) -> u64 {
             let c = grass_compiler::sass_value::Color::from_hwb(Number(a[0]), Number(a[1]), Number(a[2]), Number(1.0));
             match kernel { "from_hwb_r" => c.red().0.to_bits(), "from_hwb_g" => c.green().0.to_bits(), _ => c.blue().0.to_bits() }
         }
+        "from_hsla_r" | "from_hsla_g" | "from_hsla_b" => {
+            let c = grass_compiler::sass_value::Color::from_hsla(Number(a[0]), Number(a[1]), Number(a[2]), Number(1.0));
+            match kernel { "from_hsla_r" => c.red().0.to_bits(), "from_hsla_g" => c.green().0.to_bits(), _ => c.blue().0.to_bits() }
+        }
         "fuzzy_equals" => v::fuzzy_equals(a[0], a[1]) as u64,
         "fuzzy_less_than" => v::fuzzy_less_than(a[0], a[1]) as u64,
         "fuzzy_less_than_or_equals" => v::fuzzy_less_than_or_equals(a[0], a[1]) as u64,
@@ -150,6 +154,13 @@ fn check_prop(args: &[String]) {
             chk(g >= 0.0 && g <= 255.0 && g == g.floor(), "C15c: from_hwb green channel is not an integer in [0,255]");
             chk(b >= 0.0 && b <= 255.0 && b == b.floor(), "C15c: from_hwb blue channel is not an integer in [0,255]");
             chk(c.alpha().0 == 1.0, "C15c: from_hwb changed an in-range alpha");
+        }
+        "c15_from_hsla" => {
+            let c = grass_compiler::sass_value::Color::from_hsla(Number(a[0]), Number(a[1]), Number(a[2]), Number(1.0));
+            let (r, g, b) = (c.red().0, c.green().0, c.blue().0);
+            chk(r >= 0.0 && r <= 255.0 && r == r.floor(), "C15c: from_hsla red channel is not an integer in [0,255]");
+            chk(g >= 0.0 && g <= 255.0 && g == g.floor(), "C15c: from_hsla green channel is not an integer in [0,255]");
+            chk(b >= 0.0 && b <= 255.0 && b == b.floor(), "C15c: from_hsla blue channel is not an integer in [0,255]");
         }
         "c07_modulo" => {
             let (n1, n2) = (a[0], a[1]);
